@@ -1,5 +1,6 @@
 (* C19 - token positions are exact, ordered and tile the source.
    Only statements, closed by [exact]; proofs live in Proofs/LexerPos.v. *)
+From Coq Require Import String.
 From TW Require Import Bytes GenToken Lexer Positions LexerPos.
 Open Scope N_scope.
 
@@ -50,3 +51,47 @@ Print Assumptions C19_every_token_is_exact.
 Theorem C19_token_list_is_exact_and_ordered input ts : lex_all input = Some ts -> chain input 0 ts.
 Proof. exact (all_tokens_exact_and_ordered input ts). Qed.
 Print Assumptions C19_token_list_is_exact_and_ordered.
+
+(* ---- the lexer read backwards (Proofs/LexRound.v): for every list of items (token type, source
+   spelling, spaces before it) that passes the computable check source_ok - text runs, {{ }},
+   directives with and without parentheses, identifiers, keywords, numbers, strings, every
+   operator and bracket, nested braces and parentheses, any white space between the tokens of code;
+   any number of lines, any bytes but NUL, backslashes inside text, comments before the items of
+   text mode - the lexer model
+   returns exactly the tokens of the items, each with its literal and the (line, column) of its first
+   and last byte as the position function lc of Spec/Positions.v gives them, then EOF at the end *)
+From TW Require Import LexRound.
+
+Theorem C19_spelled_items_lex_to_their_tokens_and_positions its :
+  source_ok its = true -> lex_all (spell its) = Some (place (spell its) 0 its).
+Proof. exact (lex_spell its). Qed.
+Print Assumptions C19_spelled_items_lex_to_their_tokens_and_positions.
+
+(* non-vacuity: these sources are spellings of checked item lists (decided by computation) *)
+Definition nl := String (Ascii.ascii_of_nat 10) EmptyString.
+Example C19_sources_in_the_domain :
+  forallb (fun s => in_domain (bs s))
+    ["<p>@if(a)x@elseif(b == 1){{ y }}@else z@end</p>";
+     "@each(v in xs)[{{ v }}@breakIf(v == 2)@continue]@else none@end";
+     "{{ {""a"": 1, ""b"": [1,2.5]}.a + f(3)-1 }}";
+     "{{ ""s"".upper() }}<b>@component(""c"", {x: 1})@slot(""n"")hi@end@end";
+     "@for(i = 0; i < 3; i++){{i}}@end";
+     "{{ a ? b : !c }}@dump(a)@use(""l"")@insert(""t"", 1)@reserve(""t"")";
+     ("<ul>" ++ nl ++ "@each(v in xs)" ++ nl ++ "  <li>{{ v }}</li>" ++ nl ++ "@end" ++ nl ++ "</ul>" ++ nl);
+     ("{{ a +" ++ nl ++ "   b }} c:\dir {{ ""two" ++ nl ++ "lines"" }} \ tail");
+     ("{{-- a comment {{ 1 }} @if --}}<p>{{-- two --}}{{--}}@if(x){{-- three" ++ nl ++ " lines --}}{{ x }}@end{{-- last --}}")]%string = true.
+Proof. vm_compute. reflexivity. Qed.
+
+Theorem C19_domain_check_is_sound src :
+  in_domain src = true ->
+  exists its tg, spell_t its tg = src /\ source_ok_t its tg = true /\
+                 lex_all src = Some (place_t src 0 its (List.length tg)).
+Proof. exact (in_domain_sound src). Qed.
+Print Assumptions C19_domain_check_is_sound.
+
+(* with a trailing gap: comments at the end of a template, white space at the end of unfinished code *)
+Theorem C19_spelled_items_with_trailing_gap its tg :
+  source_ok_t its tg = true ->
+  lex_all (spell_t its tg) = Some (place_t (spell_t its tg) 0 its (List.length tg)).
+Proof. exact (lex_spell_t its tg). Qed.
+Print Assumptions C19_spelled_items_with_trailing_gap.
